@@ -178,10 +178,10 @@ def _run(cmd, cwd, timeout):
 
 
 def load_obligations(prop_id: str) -> dict:
-    ob = json.loads((LEAN / "obligations.json").read_text())
-    if prop_id not in ob:
+    f = LEAN / "obligations" / f"{prop_id}.json"
+    if not f.exists():
         raise InfraError(f"no obligations registered for {prop_id}")
-    return ob[prop_id]
+    return json.loads(f.read_text())
 
 
 def strip_comments(src: str) -> str:
